@@ -3,6 +3,7 @@
 package slip
 
 import (
+	"reflect"
 	"strconv"
 )
 
@@ -11,6 +12,16 @@ const HashTableSymbol = Symbol("hash-table")
 
 // HashTable of Objects.
 type HashTable map[Object]Object
+
+// Key returns the key to use with the underlying map for a LISP key. A Go map
+// panics with a runtime error when the key is a slice, map, or function so a
+// type-error is raised for keys such as a list or octets.
+func (obj HashTable) Key(s *Scope, depth int, key Object) Object {
+	if key != nil && !reflect.TypeOf(key).Comparable() {
+		TypePanic(s, depth, "key", key, "hashable object")
+	}
+	return key
+}
 
 // String representation of the Object.
 func (obj HashTable) String() string {
@@ -114,14 +125,4 @@ func (obj HashTable) LoadForm() Object {
 	form = append(form, Symbol("table"))
 
 	return form
-}
-
-// CheckHashKey raises a type-error if key can not be used as a key in a
-// HashTable. A HashTable is a Go map so a key that is a Go slice or map, a
-// list, octets, or hash-table, can not be hashed.
-func CheckHashKey(s *Scope, depth int, key Object) {
-	switch key.(type) {
-	case List, Octets, HashTable:
-		TypePanic(s, depth, "key", key, "object other than a list, octets, or hash-table")
-	}
 }
